@@ -337,6 +337,11 @@ func main() {
 				o.Stats["double-release"]++
 				o.Monitor = append(o.Monitor, util.MonitorFail{Case: idx, What: fmt.Sprintf("a mailbox message was released to the pool %d time(s) without having been taken in between (two later senders would share it: accepted messages overwritten or lost). First at: %s", res.DoubleRelease, res.DoubleAt)})
 			}
+			if res.AliasLeft {
+				o.Stats["alias-left-after-termination"]++
+				o.Monitor = append(o.Monitor, util.MonitorFail{Case: idx, Tags: []string{"meta-alias"},
+					What: "the meta process has terminated (every goroutine of it finished) and its alias is still registered in the node: a send to the alias succeeds"})
+			}
 			if res.Stalled != "" {
 				o.Notes = append(o.Notes, fmt.Sprintf("case %d stalled: %s", idx, res.Stalled))
 			}
